@@ -972,3 +972,115 @@ theorem scanner_report_run (o : Opts) {path : Path} {put : Container → Cif} {c
   exact elemsLoop_peek o hn F _ _
 
 end CifModel.Model.Parser
+
+namespace CifModel.Model.Parser
+open CifModel CifModel.Model CifModel.Model.Lexer CifModel.Spec.Grammar CifModel.Spec.Lexical
+open CifModel.Gen.ErrCodes
+
+/-! ## part 6 — `loop_` that is not followed by a data name (CIF_NULL_LOOP): ignored -/
+
+theorem null_loop_step (o : Opts) {path : Path} {put : Container → Cif} {code : Str} (hv : View o path put code)
+    (ty : TokType) (tx : Str) (ts : List TokSpec) (s : PS) (fuel : Nat) (w : W) (fs : List Container) (ls : List Loop)
+    (isBlock : Bool) (hcif : w.cif = put (.mk code fs ls)) (hfuel : 1 ≤ fuel) (hnn : ty ≠ .name)
+    (hF : Feeds o s ((.loopKw, []) :: (ty, tx) :: ts)) :
+    ∃ s' r, elemsLoop o (fuel + 1) s (some path) isBlock acceptAll w
+        = elemsLoop o fuel s' (some path) isBlock acceptAll { w with log := r :: w.log }
+      ∧ r.code = CIF_NULL_LOOP ∧ Feeds o s' ((ty, tx) :: ts) := by
+  obtain ⟨t, s1, hty, _, hn, _, hr⟩ := hF.inv
+  obtain ⟨s2, h1, h2⟩ := header_structure o hv fs ls [] [] ((ty, tx) :: ts) (consume s1) fuel acceptAll w hcif
+    (by intro n hn; cases hn) (by intro n hn; cases hn) (by simp) (by simpa using hfuel) ⟨ty, tx, ts, rfl, hnn⟩ hr
+  simp only [List.nil_append, List.map_nil] at h1
+  refine ⟨s2, ⟨CIF_NULL_LOOP, s2.scan.line, s2.scan.col - (s2.tok.getD default).text.length⟩, ?_, rfl, h2⟩
+  conv => lhs; rw [elemsLoop]
+  simp only [bind_eq, pure_eq, P.bind, P.pure, hn, hty]
+  unfold parseLoop
+  simp only [bind_eq, pure_eq, P.bind, P.pure, h1, List.isEmpty_nil, if_true, report_accept]
+
+/-- CIF_NULL_LOOP, universally: any container, any well-formed items before and behind; what follows the lone `loop_` is not a
+    data name (a data name would make it a loop header) -/
+theorem null_loop_run (o : Opts) {path : Path} {put : Container → Cif} {code : Str} (hv : View o path put code)
+    (pre post : List Item) (seen seen2 : List Str) (rest : List TokSpec) (s : PS) (fuel : Nat) (w : W)
+    (fs : List Container) (ls : List Loop) (isBlock : Bool) (hcif : w.cif = put (.mk code fs ls))
+    (hpre : wfItems o pre seen = true) (hseen : ∀ k ∈ normNames o ls, k ∈ seen)
+    (hpost : wfItems o post seen2 = true)
+    (hseen2 : ∀ k ∈ normNames o (denoteItems o.dia o.normKey pre ls), k ∈ seen2)
+    (hfuel : szItems pre + szItems post + 1 + 1 ≤ fuel)
+    (hnext : ∃ ty tx ts, itemsToks post ++ rest = (ty, tx) :: ts ∧ ty ≠ .name)
+    (hrest : lastIsLoop post = true → ∃ ty tx ts, rest = (ty, tx) :: ts ∧ isTerminator ty = true)
+    (hF : Feeds o s (itemsToks pre ++ ([(.loopKw, [])] ++ (itemsToks post ++ rest)))) :
+    ∃ s' r, elemsLoop o (fuel + post.length + 1 + pre.length) s (some path) isBlock acceptAll w
+        = elemsLoop o fuel s' (some path) isBlock acceptAll
+            { log := r :: w.log, cif := put (.mk code fs (denoteItems o.dia o.normKey (pre ++ post) ls)) }
+      ∧ r.code = CIF_NULL_LOOP ∧ Feeds o s' rest := by
+  have := defect_run o hv pre post [(.loopKw, [])] id CIF_NULL_LOOP 1 seen seen2 rest s fuel w fs ls isBlock hcif hpre hseen
+    hpost hseen2
+    (by
+      intro s1 w1 f hc hf hF1
+      obtain ⟨ty, tx, ts, hnx, hnn⟩ := hnext
+      rw [hnx] at hF1 ⊢
+      obtain ⟨s2, r, h1, h2, h3⟩ := null_loop_step o hv ty tx ts s1 f w1 fs _ isBlock hc hf hnn hF1
+      refine ⟨s2, r, ?_, h2, h3⟩
+      rw [h1]; simp only [id]; rw [← hc])
+    hfuel (fun _ => ⟨_, _, _, rfl, rfl⟩) hrest hF
+  simpa [denoteItems_append] using this
+
+end CifModel.Model.Parser
+
+namespace CifModel.Model.Parser
+open CifModel CifModel.Model CifModel.Model.Lexer CifModel.Spec.Grammar CifModel.Spec.Lexical
+open CifModel.Gen.ErrCodes
+
+/-! ## part 7 — a data name that is not a valid item name (CIF_INVALID_ITEMNAME): the item is parsed and dropped -/
+
+theorem invalid_name_step (o : Opts) {path : Path} (n : Str) (v : Val) (next : List TokSpec) (s : PS) (fuel : Nat) (w : W)
+    (isBlock : Bool) (hn0 : noNul n = true) (hinv : isValidName true n = false)
+    (hwv : wfVal o v = true) (hfuel : szVal v ≤ fuel) (hF : Feeds o s ((.name, n) :: (valToks v ++ next))) :
+    ∃ s' r, elemsLoop o (fuel + 1) s (some path) isBlock acceptAll w
+        = elemsLoop o fuel s' (some path) isBlock acceptAll { w with log := r :: w.log }
+      ∧ r.code = CIF_INVALID_ITEMNAME ∧ Feeds o s' next := by
+  obtain ⟨t, s1, hty, htx, hn, _, hr⟩ := hF.inv
+  obtain ⟨ty2, tx2, ts2, hvt, hstart, hkey⟩ := valToks_head v
+  have hr' := hr
+  rw [hvt, List.cons_append] at hr'
+  obtain ⟨t2, s2, hty2, htx2, hn2, ht2, hr2⟩ := hr'.inv
+  have hpend : Feeds o s2 (valToks v ++ next) := by
+    rw [hvt, List.cons_append, ← hty2, ← htx2]; exact Feeds.pending ht2 hr2
+  let r0 : Report := ⟨CIF_INVALID_ITEMNAME, (consume s1).scan.line, (consume s1).scan.col⟩
+  obtain ⟨s3, h1, h2⟩ := value_structure o v next s2 fuel acceptAll { w with log := r0 :: w.log } hwv hfuel hpend
+  have hitem : parseItem o fuel (consume s1) (some path) none acceptAll { w with log := r0 :: w.log } = .ok s3 { w with log := r0 :: w.log } := by
+    unfold parseItem
+    simp only [bind_eq, pure_eq, P.bind, P.pure, hn2, hty2, hkey, hstart, if_true, Bool.false_eq_true, if_false, h1]
+  have hex : itemExists o path n acceptAll w = .ok false w := by
+    unfold itemExists
+    simp only [hinv, Bool.not_false, if_true, pure_eq, P.pure]
+  refine ⟨s3, r0, ?_, rfl, h2⟩
+  conv => lhs; rw [elemsLoop]
+  simp only [bind_eq, pure_eq, P.bind, P.pure, hn, hty, htx, cstr_noNul hn0, hex, Bool.false_eq_true, if_false, Option.isSome_some,
+    hinv, Bool.not_false, and_self, if_true, report_accept, hitem, r0]
+
+theorem invalid_name_run (o : Opts) {path : Path} {put : Container → Cif} {code : Str} (hv : View o path put code)
+    (pre post : List Item) (n : Str) (v : Val) (seen seen2 : List Str) (rest : List TokSpec) (s : PS) (fuel : Nat) (w : W)
+    (fs : List Container) (ls : List Loop) (isBlock : Bool) (hcif : w.cif = put (.mk code fs ls))
+    (hpre : wfItems o pre seen = true) (hseen : ∀ k ∈ normNames o ls, k ∈ seen)
+    (hn0 : noNul n = true) (hinv : isValidName true n = false)
+    (hwv : wfVal o v = true) (hpost : wfItems o post seen2 = true)
+    (hseen2 : ∀ k ∈ normNames o (denoteItems o.dia o.normKey pre ls), k ∈ seen2)
+    (hfuel : szItems pre + szItems post + szVal v + 1 ≤ fuel)
+    (hrest : lastIsLoop post = true → ∃ ty tx ts, rest = (ty, tx) :: ts ∧ isTerminator ty = true)
+    (hF : Feeds o s (itemsToks pre ++ (((.name, n) :: valToks v) ++ (itemsToks post ++ rest)))) :
+    ∃ s' r, elemsLoop o (fuel + post.length + 1 + pre.length) s (some path) isBlock acceptAll w
+        = elemsLoop o fuel s' (some path) isBlock acceptAll
+            { log := r :: w.log, cif := put (.mk code fs (denoteItems o.dia o.normKey (pre ++ post) ls)) }
+      ∧ r.code = CIF_INVALID_ITEMNAME ∧ Feeds o s' rest := by
+  have := defect_run o hv pre post ((.name, n) :: valToks v) id CIF_INVALID_ITEMNAME (szVal v) seen seen2 rest s fuel w fs ls isBlock hcif
+    hpre hseen hpost hseen2
+    (by
+      intro s1 w1 f hc hf hF1
+      simp only [List.cons_append, List.append_assoc] at hF1
+      obtain ⟨s2, r, h1, h2, h3⟩ := invalid_name_step o (path := path) n v _ s1 f w1 isBlock hn0 hinv hwv hf hF1
+      refine ⟨s2, r, ?_, h2, h3⟩
+      rw [h1]; simp only [id]; rw [← hc])
+    hfuel (fun _ => ⟨_, _, _, rfl, rfl⟩) hrest hF
+  simpa [denoteItems_append] using this
+
+end CifModel.Model.Parser
